@@ -13,6 +13,8 @@ func runFamily(fam string, w *bufio.Writer, r *rng, id, size int, opt string) bo
 		genOpts(w, r, id, size)
 	case "result":
 		genResult(w, r, id, size)
+	case "call":
+		genCall(w, r, id, cfgGeneral, 3, "call")
 	default:
 		return false
 	}
